@@ -33,7 +33,17 @@ var c12 = Register("C12", "C12.bid", func(a c12Args) *Violation {
 	n := ref.DecodeBits(hi, lo) // independent decoder applied to the emitted bytes
 
 	// what the API says the value is, through routes that do not involve MarshalBinary
-	form, neg, coefBytes, exp := d.Decompose(nil)
+	// Decompose gets nil or a reused scratch buffer still holding other bytes: what it reports must not depend on it
+	var scratch []byte
+	if h := hashWords(a.V.Hi, a.V.Lo, 9); h&1 == 1 {
+		c := 16 + int(h>>16)%17
+		scratch = make([]byte, int(h>>8)%(c+1), c)
+		full := scratch[:cap(scratch)]
+		for i := range full {
+			full[i] = byte(h>>(uint(i)%56)) | 1
+		}
+	}
+	form, neg, coefBytes, exp := d.Decompose(scratch)
 	switch {
 	case d.IsNaN():
 		if n.Class != ref.NaN || b[0]&0x7c != 0x7c || form != 2 {
